@@ -1,0 +1,310 @@
+//! Verification hooks (only compiled with `--cfg rarena_verif`).
+//!
+//! Transparent wrappers around the core atomics that report every access to a
+//! thread-local [`Hook`], a reporting `Backoff` shim, and read-only snapshot
+//! helpers.  When no hook is installed every wrapper falls through to the core
+//! operation, so behaviour is unchanged.
+use core::panic::Location;
+use core::sync::atomic::Ordering;
+use std::cell::Cell;
+use std::vec::Vec;
+
+/// Kind of an atomic access.
+#[derive(Debug, Clone, Copy, PartialEq, Eq, Hash)]
+pub enum Kind {
+  Load,
+  Store,
+  Cas,
+  FetchAdd,
+  FetchSub,
+}
+
+/// One atomic access, reported before and after it is performed.
+#[derive(Debug, Clone, Copy)]
+pub struct Event {
+  pub addr: usize,
+  pub size: u8,
+  pub kind: Kind,
+  pub success: Ordering,
+  pub failure: Ordering,
+  pub file: &'static str,
+  pub line: u32,
+}
+
+/// Receiver of the events of the current OS thread.
+pub trait Hook {
+  /// Called before the access is performed. The only scheduling point.
+  fn before(&self, ev: &Event);
+  /// Called after the access: `old` is the value observed, `new` the value left in memory.
+  fn after(&self, ev: &Event, old: u64, new: u64, ok: bool);
+  /// `Backoff::snooze` (true) or `Backoff::spin` (false).
+  fn spin(&self, snooze: bool);
+  /// A non-atomic write of the arena to its own memory (zeroing of a handed-out range).
+  fn plain_write(&self, addr: usize, len: usize);
+  /// The backing memory `[addr, addr+len)` is about to be released.
+  fn teardown(&self, addr: usize, len: usize);
+}
+
+thread_local! {
+  static HOOK: Cell<Option<&'static dyn Hook>> = const { Cell::new(None) };
+}
+
+/// Install (or remove) the hook of the calling OS thread.
+pub fn install(h: Option<&'static dyn Hook>) {
+  HOOK.with(|c| c.set(h));
+}
+
+#[inline]
+fn hook() -> Option<&'static dyn Hook> {
+  HOOK.with(|c| c.get())
+}
+
+macro_rules! atomic_int {
+  ($name:ident, $inner:ty, $prim:ty) => {
+    #[repr(transparent)]
+    #[derive(Debug)]
+    pub struct $name($inner);
+
+    impl $name {
+      #[inline]
+      pub const fn new(v: $prim) -> Self {
+        Self(<$inner>::new(v))
+      }
+
+      /// Unhooked relaxed load (observer mode).
+      #[inline]
+      pub fn raw_load(&self) -> $prim {
+        self.0.load(Ordering::Relaxed)
+      }
+
+      #[track_caller]
+      #[inline]
+      fn ev(&self, kind: Kind, s: Ordering, f: Ordering) -> Event {
+        let l = Location::caller();
+        Event {
+          addr: self as *const _ as usize,
+          size: core::mem::size_of::<$prim>() as u8,
+          kind,
+          success: s,
+          failure: f,
+          file: l.file(),
+          line: l.line(),
+        }
+      }
+
+      #[track_caller]
+      #[inline]
+      pub fn load(&self, o: Ordering) -> $prim {
+        if let Some(h) = hook() {
+          let e = self.ev(Kind::Load, o, o);
+          h.before(&e);
+          let v = self.0.load(o);
+          h.after(&e, v as u64, v as u64, true);
+          v
+        } else {
+          self.0.load(o)
+        }
+      }
+
+      #[track_caller]
+      #[inline]
+      pub fn store(&self, v: $prim, o: Ordering) {
+        if let Some(h) = hook() {
+          let e = self.ev(Kind::Store, o, o);
+          h.before(&e);
+          let old = self.0.load(Ordering::Relaxed);
+          self.0.store(v, o);
+          h.after(&e, old as u64, v as u64, true);
+        } else {
+          self.0.store(v, o)
+        }
+      }
+
+      #[track_caller]
+      #[inline]
+      pub fn compare_exchange(
+        &self,
+        c: $prim,
+        n: $prim,
+        s: Ordering,
+        f: Ordering,
+      ) -> Result<$prim, $prim> {
+        if let Some(h) = hook() {
+          let e = self.ev(Kind::Cas, s, f);
+          h.before(&e);
+          let r = self.0.compare_exchange(c, n, s, f);
+          match r {
+            Ok(o) => h.after(&e, o as u64, n as u64, true),
+            Err(o) => h.after(&e, o as u64, o as u64, false),
+          };
+          r
+        } else {
+          self.0.compare_exchange(c, n, s, f)
+        }
+      }
+
+      /// Executed as the strong form while a hook is installed (deterministic).
+      #[track_caller]
+      #[inline]
+      pub fn compare_exchange_weak(
+        &self,
+        c: $prim,
+        n: $prim,
+        s: Ordering,
+        f: Ordering,
+      ) -> Result<$prim, $prim> {
+        if hook().is_some() {
+          self.compare_exchange(c, n, s, f)
+        } else {
+          self.0.compare_exchange_weak(c, n, s, f)
+        }
+      }
+
+      #[track_caller]
+      #[inline]
+      pub fn fetch_add(&self, v: $prim, o: Ordering) -> $prim {
+        if let Some(h) = hook() {
+          let e = self.ev(Kind::FetchAdd, o, o);
+          h.before(&e);
+          let old = self.0.fetch_add(v, o);
+          h.after(&e, old as u64, old.wrapping_add(v) as u64, true);
+          old
+        } else {
+          self.0.fetch_add(v, o)
+        }
+      }
+
+      #[track_caller]
+      #[inline]
+      pub fn fetch_sub(&self, v: $prim, o: Ordering) -> $prim {
+        if let Some(h) = hook() {
+          let e = self.ev(Kind::FetchSub, o, o);
+          h.before(&e);
+          let old = self.0.fetch_sub(v, o);
+          h.after(&e, old as u64, old.wrapping_sub(v) as u64, true);
+          old
+        } else {
+          self.0.fetch_sub(v, o)
+        }
+      }
+    }
+  };
+}
+
+atomic_int!(AtomicU64, core::sync::atomic::AtomicU64, u64);
+atomic_int!(AtomicU32, core::sync::atomic::AtomicU32, u32);
+atomic_int!(AtomicUsize, core::sync::atomic::AtomicUsize, usize);
+
+/// Reporting stand-in for `crossbeam_utils::Backoff`.
+pub struct Backoff(crossbeam_utils::Backoff);
+
+impl Backoff {
+  #[inline]
+  #[allow(clippy::new_without_default)]
+  pub fn new() -> Self {
+    Self(crossbeam_utils::Backoff::new())
+  }
+
+  #[inline]
+  pub fn snooze(&self) {
+    if let Some(h) = hook() {
+      h.spin(true)
+    } else {
+      self.0.snooze()
+    }
+  }
+
+  #[inline]
+  pub fn spin(&self) {
+    if let Some(h) = hook() {
+      h.spin(false)
+    } else {
+      self.0.spin()
+    }
+  }
+}
+
+#[inline]
+pub fn plain_write(addr: usize, len: usize) {
+  if let Some(h) = hook() {
+    h.plain_write(addr, len)
+  }
+}
+
+#[inline]
+pub fn teardown(addr: usize, len: usize) {
+  if let Some(h) = hook() {
+    h.teardown(addr, len)
+  }
+}
+
+/// Read-only picture of the allocator state, taken without hooked accesses.
+#[derive(Debug, Clone, PartialEq, Eq, Hash, Default)]
+pub struct Snapshot {
+  pub sentinel: u64,
+  pub allocated: u32,
+  pub min_segment_size: u32,
+  pub discarded: u32,
+  /// `(node offset, node word)` in list order.
+  pub nodes: Vec<(u32, u64)>,
+  /// the walk hit `max_nodes`
+  pub truncated: bool,
+  /// the walk met an offset it had already visited
+  pub cyclic: bool,
+  /// the walk met an offset that is misaligned or outside `[0, cap - 8]`
+  pub wild: bool,
+}
+
+/// Addresses the engine needs to classify accesses.
+#[derive(Debug, Clone, Copy, Default)]
+pub struct Ranges {
+  pub base: usize,
+  pub cap: usize,
+  pub header: usize,
+  pub header_len: usize,
+  pub memory_box: usize,
+  pub memory_box_len: usize,
+}
+
+/// Bounded, defensive walk over the free list starting from `sentinel`.
+///
+/// ## Safety
+/// `[ptr, ptr+cap)` must be readable.
+pub unsafe fn snapshot(
+  ptr: *const u8,
+  cap: u32,
+  sentinel: u64,
+  allocated: u32,
+  min_segment_size: u32,
+  discarded: u32,
+  max_nodes: usize,
+) -> Snapshot {
+  let mut s = Snapshot {
+    sentinel,
+    allocated,
+    min_segment_size,
+    discarded,
+    ..Default::default()
+  };
+  let mut next = sentinel as u32;
+  while next != u32::MAX {
+    if s.nodes.len() >= max_nodes {
+      s.truncated = true;
+      break;
+    }
+    if next % 8 != 0 || (next as u64) + 8 > cap as u64 {
+      s.wild = true;
+      break;
+    }
+    if s.nodes.iter().any(|(o, _)| *o == next) {
+      s.cyclic = true;
+      break;
+    }
+    let w = unsafe {
+      (*(ptr.add(next as usize) as *const core::sync::atomic::AtomicU64)).load(Ordering::Relaxed)
+    };
+    s.nodes.push((next, w));
+    next = w as u32;
+  }
+  s
+}
